@@ -214,3 +214,67 @@ func randDelivery(r *core.Rand, n int, faultChance int) *simio.Delivery {
 	}
 	return d
 }
+
+// pathOf lists, from the root down, the names of the built-in formats a
+// member of the family is normally classified under (used only to aim
+// extensions at a detection path; the oracle never relies on it).
+func pathOf(fam string) []string {
+	switch fam {
+	case "json", "json_trunc", "har", "gltf":
+		return []string{"", "text/plain", "application/json"}
+	case "geojson":
+		return []string{"", "text/plain", "application/json", "application/geo+json"}
+	case "html_meta":
+		return []string{"", "text/plain", "text/html"}
+	case "xml_enc":
+		return []string{"", "text/plain", "text/xml"}
+	case "csv":
+		return []string{"", "text/plain", "text/csv"}
+	case "svg":
+		return []string{"", "text/plain", "image/svg+xml"}
+	case "text", "latin1", "ndjson", "shebang", "tsv", "rtf", "json_bad", "bom8", "text_nul":
+		return []string{"", "text/plain"}
+	case "docx":
+		return []string{"", "application/zip", "application/vnd.openxmlformats-officedocument.wordprocessingml.document"}
+	case "zip":
+		return []string{"", "application/zip"}
+	case "png":
+		return []string{"", "image/png"}
+	case "pdf":
+		return []string{"", "application/pdf"}
+	case "ole":
+		return []string{"", "application/x-ole-storage"}
+	case "gzip":
+		return []string{"", "application/gzip"}
+	}
+	return []string{""}
+}
+
+// accepting makes an extension on parent (a built-in name or "") whose predicate accepts x.
+func (g *extGen) accepting(parent string, x []byte) *model.Ext {
+	id := g.next
+	g.next++
+	e := &model.Ext{ID: id, ParentExt: -1, Arr: -1, Parent: parent,
+		Mime: fmt.Sprintf("x-verif/e%d", id), Extension: fmt.Sprintf(".e%d", id)}
+	switch g.r.Intn(4) {
+	case 0:
+	case 1:
+		n := g.r.Range(1, 4)
+		if n > len(x) {
+			n = len(x)
+		}
+		e.Pred.Prefix = hex.EncodeToString(x[:n])
+	case 2:
+		e.Pred.MinLen = g.r.Range(0, len(x))
+	case 3:
+		if len(x) > 0 {
+			e.Pred.Contains = 1 + int(x[g.r.Intn(len(x))])
+		}
+	}
+	for j, n := 0, g.r.Intn(3); j < n; j++ {
+		e.Aliases = append(e.Aliases, fmt.Sprintf("x-verif/a%d-%d", id, j))
+	}
+	e.SpareCap = g.r.Intn(3)
+	g.made = append(g.made, e)
+	return e
+}
